@@ -226,6 +226,7 @@ func waitAll(done []chan struct{}, names []string, desc string) error {
 				}
 			}
 			inconclusive = true
+			stats.MarkInconclusive("reads did not complete in time but no reader is blocked inside fox")
 			return fmt.Errorf("%s: read %q did not complete within 20s but no reader is blocked inside fox (inconclusive)", desc, names[i])
 		}
 	}
@@ -318,6 +319,7 @@ func checkCase(c *Case, count bool) error {
 	case <-parked:
 	case <-time.After(20 * time.Second):
 		inconclusive = true
+		stats.MarkInconclusive("writer did not reach its parking point")
 		return fmt.Errorf("%s: the writer did not reach its parking point (inconclusive)", desc)
 	}
 	// every read entry point, each in its own goroutine, while the writer is parked
@@ -363,6 +365,7 @@ func checkCase(c *Case, count bool) error {
 		case <-ch:
 		case <-time.After(20 * time.Second):
 			inconclusive = true
+			stats.MarkInconclusive("writers did not finish after release")
 			return fmt.Errorf("%s: writers did not finish after release (inconclusive)", desc)
 		}
 	}
@@ -386,6 +389,7 @@ func checkCase(c *Case, count bool) error {
 			return fmt.Errorf("%s: a write is blocked on the writer lock while only a read-only transaction and a suspended iterator are open", desc)
 		}
 		inconclusive = true
+		stats.MarkInconclusive("write did not complete in time, not blocked on the writer lock")
 		return fmt.Errorf("%s: write did not complete within 20s (inconclusive)", desc)
 	}
 	stop()
